@@ -21,7 +21,7 @@ NOT_DECIDED = ("that a null build executes nothing (behavioural: depends on ever
 # data members that configure* writes but that are deliberately outside the signature
 COVERAGE_EXEMPT = {
     ("ExternalCommand", "description"): "display only",
-    ("ExternalCommand", "inputs"): "folded by name through the inputs loop (checked by R-SIG-DECODABLE site listing)",
+    ("ExternalCommand", "repairViaOwnershipAnalysis"): "consumed while the description is loaded (ownership analysis rewires nodes); not part of what the command executes",
     ("ShellCommand", "workingDirectory"): "not in the property's list of signature-relevant parts",
     ("ShellCommand", "controlEnabled"): "execution-queue protocol switch, not part of the command definition",
     ("ShellCommand", "cachedSignature"): "the cache of the signature itself",
@@ -51,7 +51,18 @@ def command_classes(prog):
 
 
 def own_fields(prog, cls):
-    return {fl["n"]: fl for fl in prog.records[cls]["fields"]}
+    """fields of cls and of its base classes (a configure* method may fill inherited storage)."""
+    out = {}
+    work = [cls]
+    while work:
+        c = work.pop()
+        rec = prog.records.get(c)
+        if not rec:
+            continue
+        for fl in rec["fields"]:
+            out.setdefault(fl["n"], fl)
+        work.extend(rec["bases"])
+    return out
 
 
 def methods_of(prog, cls):
@@ -89,15 +100,39 @@ def written_fields(prog, cls, fields):
 
 
 def folded_fields(prog, cls, fields):
+    """(own getSignature or None, fields folded by the signature this class ends up with)"""
     dids = {fl["did"]: n for n, fl in fields.items()}
-    sig = [f for f in methods_of(prog, cls) if f.name.split("::")[-1] == "getSignature"]
-    if not sig:
-        return None, None
+    own = None
     out = set()
-    for n in sig[0].nodes:
-        if n.get("k") == "member" and n.get("did") in dids:
-            out.add(dids[n["did"]])
-    return sig[0], out
+    c = cls
+    seen = set()
+    while c and c not in seen:
+        seen.add(c)
+        sig = [f for f in methods_of(prog, c) if f.name.split("::")[-1] == "getSignature"]
+        nxt = None
+        if sig:
+            if own is None and c == cls:
+                own = sig[0]
+            for n in sig[0].nodes:
+                if n.get("k") == "member" and n.get("did") in dids:
+                    out.add(dids[n["did"]])
+                # accessor calls on this (getInputs()/getOutputs()) count as reading the field they return
+                if n.get("k") == "call" and n.get("ck") == "member" and core(n.child("obj")) is not None and core(n.child("obj")).get("k") == "this":
+                    g = prog.functions.get(n.get("fk"))
+                    if g is not None and len(g.nodes) < 12:
+                        for m in g.nodes:
+                            if m.get("k") == "member" and m.get("did") in dids:
+                                out.add(dids[m["did"]])
+            base_calls = [x for x in sig[0].calls() if x.get("qualified") and (x.get("fn") or "").endswith("::getSignature")]
+            if base_calls:
+                nxt = base_calls[0]["fn"].rsplit("::", 1)[0]
+                nxt = [k for k in prog.records if k == nxt or k.endswith("::" + nxt.split("::")[-1])]
+                nxt = nxt[0] if nxt else None
+        else:
+            bases = prog.records.get(c, {}).get("bases", [])
+            nxt = bases[0] if bases else None
+        c = nxt
+    return own, out
 
 
 def fold_items(f):
@@ -186,10 +221,10 @@ def run(ctx):
             if wname in ("configureInputs", "configureOutputs") and any(c.get("qualified") and (c.get("fn") or "").endswith("::" + wname) for c in where.calls()):
                 r.exempt(site, "derived in %s from the inputs/outputs the base signature already folds (base %s is called)" % (wname, wname), where)
                 continue
-            if sigf is None:
-                r.violation(site, "%s::%s is configurable (%s) but %s has no getSignature of its own" % (short, fld, where.name.split("::")[-1], short), where)
-            elif fld in folded:
-                r.ok(site, "", sigf)
+            if fld in folded:
+                r.ok(site, "", sigf or where)
+            elif sigf is None:
+                r.violation(site, "%s::%s is configurable (%s) but %s has no getSignature of its own and the inherited one does not fold it" % (short, fld, where.name.split("::")[-1], short), where)
             else:
                 r.violation(site, "%s::%s is configurable (%s) but is not folded into %s::getSignature" % (short, fld, where.name.split("::")[-1], short), sigf)
 
@@ -268,8 +303,8 @@ VARIANTS = [
          old="  for (const auto* output: outputs) {\n    code = code.combine(output->getName());\n  }\n", new="", expect=("R-SIG-COVERAGE", "ExternalCommand|outputs")),
     dict(name="inherit-env-as-size", file="lib/BuildSystem/ShellCommand.cpp", old="    code = code.combine(int(inheritEnv));", new="    code = code.combine(int(env.size()));",
          expect=("R-SIG-LOSSLESS", "ShellCommand::getSignature")),
-    dict(name="node-pointer-hashed", file="lib/BuildSystem/ExternalCommand.cpp", old="    code = code.combine(input->getName());", new="    code = code.combine(input != nullptr && input->getName().empty());",
-         expect=("R-SIG-COVERAGE", "")),
+    dict(name="node-pointer-hashed", file="lib/BuildSystem/ExternalCommand.cpp", old="    code = code.combine(input->getName());",
+         new="    code = code.combine(StringRef((const char*)&input, sizeof(input)));", expect=("R-HASH-DETERMINISTIC", "ExternalCommand::getSignature")),
     dict(name="benign-combine-order", file="lib/BuildSystem/ExternalCommand.cpp",
          old="      .combine(allowMissingInputs)\n      .combine(allowModifiedOutputs)", new="      .combine(allowModifiedOutputs)\n      .combine(allowMissingInputs)", expect=None),
 ]
